@@ -20,6 +20,8 @@ fn titlecase_word(word: &str) -> String {
 }
 
 fn main() {
+    // verification hooks (see src/tls_records_parser.rs) are guarded by this cfg flag
+    println!("cargo:rustc-check-cfg=cfg(tls_parser_verif)");
     let path_txt =
         Path::new(&env::var("CARGO_MANIFEST_DIR").unwrap()).join("scripts/tls-ciphersuites.txt");
     let display = path_txt.display();
